@@ -74,6 +74,7 @@ type corpusEntry struct {
 	expect  string      // expected result class
 	what    string
 	long    bool // a list with a declared length of 65..1024
+	pkg     int  // 1: through the package-level one-shot functions with the shared maps; 2: with nil maps
 	dyn     bool // the message is built per call: an instance with a wire field no Go type has, under a NEW name every time
 }
 
@@ -299,6 +300,16 @@ func buildCorpus(seed int64, env *Env, tm map[string]reflect.Type, nm map[string
 		r.Read(g)
 		corpus = append(corpus, corpusEntry{damaged: true, wire: g, what: "decode random"})
 	}
+	// the package-level one-shot functions (whatever they keep between calls is shared by the whole process):
+	// with the shared maps and with no maps at all, next to one another
+	for k := 0; k < 12; k++ {
+		v := &zoo.WithInner{X: zoo.Inner{A: int32(k), S: "pk"}, P: &zoo.Inner{A: 2, S: "p"}, N: int32(k)}
+		var lv interface{} = &zoo.SlPtr{V: []*zoo.Inner{{A: int32(k), S: "e"}}}
+		corpus = append(corpus, corpusEntry{encode: true, val: v, pkg: 1 + k%2, what: "one-shot ToBytes of a struct"}, corpusEntry{encode: true, val: lv, pkg: 1 + k%2, what: "one-shot ToBytes of a typed list holder"})
+		if b, err := hessian.ToBytes(v, copyNames(nm)); err == nil {
+			corpus = append(corpus, corpusEntry{wire: b, pkg: 1 + k%2, what: "one-shot ToObject"})
+		}
+	}
 	// instances of the third, fourth, ... class of a message in VALUE position (their compact tags x62, x63
 	// double as legacy chunk tags), and - as the LAST entries, so that the alone pass meets them after everything
 	// else - binaries chunked the legacy way ('b' non-final chunks): what one decoder learns about its peer's
@@ -319,6 +330,12 @@ func buildCorpus(seed int64, env *Env, tm map[string]reflect.Type, nm map[string
 	return corpus
 }
 
+// c12maps: the shared maps, for the corpus entries that go through the package-level functions
+var c12maps struct {
+	tm map[string]reflect.Type
+	nm map[string]string
+}
+
 type instance struct {
 	enc *hessian.Encoder
 	dec *hessian.Decoder
@@ -330,7 +347,11 @@ func (in *instance) run(e *corpusEntry, multi bool) string {
 		var b []byte
 		var err error
 		pi, _ := Guard(func() {
-			if in.ser != nil {
+			if e.pkg == 1 {
+				b, err = hessian.ToBytes(e.val, c12maps.nm)
+			} else if e.pkg == 2 {
+				b, err = hessian.ToBytes(e.val, nil)
+			} else if in.ser != nil {
 				b, err = in.ser.ToBytes(e.val)
 			} else {
 				b, err = in.enc.Encode(e.val)
@@ -345,7 +366,11 @@ func (in *instance) run(e *corpusEntry, multi bool) string {
 		wire = dynWire()
 	}
 	pi, _ := Guard(func() {
-		if in.ser != nil {
+		if e.pkg == 1 {
+			v, err = hessian.ToObject(wire, c12maps.tm)
+		} else if e.pkg == 2 {
+			v, err = hessian.ToObject(wire, nil)
+		} else if in.ser != nil {
 			v, err = in.ser.ToObject(wire)
 		} else {
 			v, err = in.dec.Decode(wire)
@@ -409,6 +434,7 @@ func (c12) Run(c Case, env *Env) Result {
 	cc := c
 	cc.Sub = 0
 	tm, nm := sharedMaps()
+	c12maps.tm, c12maps.nm = tm, nm
 	corpus := buildCorpus(c.Seed, env, tm, nm)
 	multi := make([]bool, len(corpus))
 	// sequential pass: expected result of every entry, run alone
